@@ -54,6 +54,28 @@ def run(tier, seed):
                 ev["mode"] = mode
                 ev["pack"] = [rustgen.canon(types[i]) for i, _ in named[bi:bi + 40]]
                 events.append(ev)
+    # (c') event names whose derived listener names collide (TLC: every name over [aB1-/:_] up to length 3), and names
+    # whose own derived name equals the numbered form another collision is given
+    name_cases = C.run_tlc("Gen_Names", "Gen_Names_events", workers=2, timeout=600).json_lines("REPLAY")
+    if len(name_cases) < 390:
+        raise C.ToolError("event name generation incomplete: %d" % len(name_cases))
+    names = ["".join(c["name"]) for c in name_cases]
+    for base in ("sync-done", "a:b/c"):
+        alt = [base, base.replace("-", "_").replace(":", "_").replace("/", "_"), base.replace("-", ":").replace("/", "-")]
+        names += alt + [base + "-2", base + "_2", base + "2", base + "-3", base + ":2", alt[1] + "_3"]
+    # neighbours in this order derive the same (or nearly the same) listener name, so colliding names share a pack
+    names = sorted(set(names), key=lambda n: (re.sub(r"[^a-z0-9]", "", n.lower()), n))
+    std = {"receiver": "app", "placed": "ok_recv", "frames": [], "method": "emit", "lit": True}
+    for bi in range(0, len(names), 80):
+        src = PC.EMIT_PRELUDE + "use tauri::Emitter;\n"
+        for j, nm in enumerate(names[bi:bi + 80]):
+            src += PC.emit_fn(7000 + bi + j, std, name=nm)
+        for mode in ("none", "zod"):
+            b, res, texts = PC.run_project(d, "evnames%d-%s" % (bi, mode), {"src/lib.rs": src}, mode=mode)
+            if b:
+                ev = PC.modules_event(b, texts, "event-names%d-%s" % (bi, mode))
+                ev["mode"] = mode
+                events.append(ev)
     # (c) the same event from several places + feature project
     multi = PC.EMIT_PRELUDE + "use tauri::Emitter;\n"
     k = 0
